@@ -1836,6 +1836,13 @@ static void c08_done(Run &run, Req &r) {
     for (auto &rs : W.resps) {
       std::string w2; int64_t a, b;
       if (c08_resp_matches_request(run, rs, r, want_qtype, w2) && c08_fresh(run, rs, max_ttl, w2, a, b)) { any = true; break; }
+      // a response corrupted in flight (a header bit may have turned NXDOMAIN into an empty NOERROR answer, ...) that answered the
+      // same question: what the library cached from it is not known
+      if (rs.tainted && !rs.read_times.empty() && rs.tx >= 0) {
+        const Tx &t = W.txs[(size_t)rs.tx];
+        std::string rn = dnsref::name_lower(r.name); if (!rn.empty() && rn.back() == '.') rn.pop_back();
+        if (!t.msg.qd.empty() && t.qname_lc == rn && t.msg.qd[0].type == want_qtype) { any = true; run.note("cache_hit_possibly_tainted_source"); break; }
+      }
     }
     if (!any) run.violate("C08", "hit_without_source", "request " + std::string(req_kind_name[r.kind]) + " " + r.name + " answered without traffic although no eligible response was cached for that key");
     return;
